@@ -1012,7 +1012,7 @@ package eventbus
 //@ func (*EventBus).ReplayWithUpcast$1
 //@   props C17
 //@   requires event != nil && bus != nil && handler != nil
-//@   ensures [C17.cb.once] cnt(replayCb) == 1 && result == lastres(replayCb, Iface) && cnt(upErrHandler) == 0
+//@   ensures [C17.cb.once] {C17,C11} cnt(replayCb) == 1 && result == lastres(replayCb, Iface) && cnt(upErrHandler) == 0
 //@   ensures [C17.cb.ok] bus.upcastRegistry != nil && lastresi(applyCall, 2, Iface) == nil ==>
 //@        lastarg(replayCb, 1, *StoredEvent).Data == lastresi(applyCall, 0, String) && lastarg(replayCb, 1, *StoredEvent).Type == lastresi(applyCall, 1, String) &&
 //@        lastarg(replayCb, 1, *StoredEvent).Offset == event.Offset && lastarg(replayCb, 1, *StoredEvent).Timestamp == event.Timestamp &&
@@ -1082,7 +1082,7 @@ package eventbus
 //@        posOf(old(log(payload(bus.store))), lastresi(loadOffset, 0, String)) + ofcall(replayCall, cnt(replayCb)) == logLen(log(payload(bus.store)))
 //@   at call:Subscribe assert [C12.live.complete.stream] implements_EventStoreStreamer(dynType(bus.store)) ==>
 //@        posOf(old(log(payload(bus.store))), lastresi(loadOffset, 0, String)) + ofcall(replayCall, cnt(replayCb)) == logLen(log(payload(bus.store)))
-//@   at call:(*EventBus).Replay assert [C15.name] {C15} typeName == evName(typeOf(T))
+//@   at call:(*EventBus).Replay assert [C15.name] {C15,C12} typeName == evName(typeOf(T))
 //@   ensures [C12.live.wrapped] result == nil ==> cnt(subscribeCall) == 1
 //@   ensures [C12.live.registered] result == nil ==> cnt(subscribeCall) == 1 && lastres(subscribeCall, Iface) == nil
 
